@@ -25,7 +25,8 @@ def main():
             pf = os.path.join(d, 'patch.rebased.diff')
             if not os.path.exists(pf):
                 pf = os.path.join(d, 'patch.diff')
-            subprocess.check_call(['git', '-C', wt, 'apply', pf])
+            if subprocess.call(['git', '-C', wt, 'apply', pf]) != 0:
+                subprocess.check_call(['git', '-C', wt, 'apply', '--3way', pf])
             subprocess.check_call([PY, 'setup.py', '-q', 'build_ext', '--inplace', '--force'], cwd=wt,
                                   stdout=subprocess.DEVNULL, stderr=subprocess.DEVNULL)
             res = {}
